@@ -24,7 +24,7 @@ func init() {
 		Assumptions: []string{"for the abbreviated forms the statement fixes contexts and parent fields only: the reference accepts the countersigner-protected slot being h'' or omitted (RFC 9338 section 3.3 vs go-cose; DESIGN section 5)", "Go crypto primitives are correct"},
 		Real:        []string{"github.com/veraison/go-cose (countersign.go, decoders, built-in signers/verifiers)", "github.com/fxamacker/cbor/v2", "Go crypto"},
 		Stubs:       []string{"cose.Signer recording wrapper", "wire between issuer and notary with fault injection", "foreign peer (reference model)", "entropy source"},
-		QuickRuns:   8000, ThoroughRuns: 300000,
+		QuickRuns:   200000, ThoroughRuns: 2500000,
 	}
 }
 
